@@ -86,6 +86,7 @@ type connRun struct {
 	closedBefore bool
 	nDecoded     int
 	c05Reported  bool
+	stuck        bool
 }
 
 type arrived struct {
@@ -382,6 +383,13 @@ func (r *connRun) arrive(kind string, c *hcall, errT string, body []byte) {
 
 func (r *connRun) decode() {
 	ws := r.decGate.list()
+	if len(ws) == 0 || len(r.arrivedQ) == 0 {
+		// the frame that was fed never reached the header decoder: the connection does something
+		// the gated protocol of this harness does not know
+		r.e.fail(r.e.Res.Property+"-frame-not-decoded", "a response frame was delivered to the connection but its header decode never started", r.replay())
+		r.stuck = true
+		return
+	}
 	a := r.arrivedQ[0]
 	r.arrivedQ = r.arrivedQ[1:]
 	// oracle bookkeeping: is the call registered right now, and nothing cut/closed?
@@ -577,7 +585,8 @@ func (r *connRun) teardown() {
 			}
 		}
 	}
-	panic("teardown does not terminate")
+	r.e.fail(r.e.Res.Property+"-connection-does-not-wind-down", "after the end of the trace the connection still had work in flight that no gate of the harness could release", r.replay())
+	r.stuck = true
 }
 
 func (r *connRun) endOracles() {
@@ -592,6 +601,12 @@ func (r *connRun) endOracles() {
 		}
 		if dc != 1 {
 			r.e.fail("C02-not-exactly-once", fmt.Sprintf("call %d (%s) completed %d times by the end of the connection", c.id, kindCoq[c.kind], dc), r.replay())
+			for _, o := range r.calls {
+				if o.abandoned {
+					r.e.fail("C19-cancel-harms-other-call", fmt.Sprintf("call %d (%s), which was not cancelled, completed %d times by the end of a connection on which call %d was given up at its context's end", c.id, kindCoq[c.kind], dc, o.id), r.replay())
+					break
+				}
+			}
 			continue
 		}
 		err := r.callErr(c)
